@@ -555,7 +555,7 @@ def _summarize(func, mutators=None, env0=None):
 
         def names_of(e):
             """what may be changed when `e` is handed to a call / is the receiver of a method: whatever it may be"""
-            return sorted(_alias.roots(e.value if isinstance(e, ast.Starred) else e, None, local_callables) - _MODULE_NAMES)
+            return sorted(_alias.roots(e.value if isinstance(e, ast.Starred) else e, None, local_callables, None, grp_all.holds) - _MODULE_NAMES)
         if isinstance(c_.func, ast.Attribute):
             base = c_.func.value
             root = base
@@ -640,9 +640,9 @@ def _summarize(func, mutators=None, env0=None):
                 while isinstance(root, (ast.Subscript, ast.Attribute)):
                     root = root.value
                 if not (isinstance(root, ast.Name) and root.id in _MODULE_NAMES):
-                    touched.extend(sorted(_alias.roots(c_.func.value, None, local_callables) - _MODULE_NAMES))
+                    touched.extend(sorted(_alias.roots(c_.func.value, None, local_callables, None, grp_all.holds) - _MODULE_NAMES))
             for o in _out_arguments(c_):
-                touched.extend(sorted(_alias.roots(o, None, local_callables) - _MODULE_NAMES))
+                touched.extend(sorted(_alias.roots(o, None, local_callables, None, grp_all.holds) - _MODULE_NAMES))
             if isinstance(c_.func, ast.Name) and isinstance(local_callables, dict) and c_.func.id in local_callables:
                 touched.extend(sorted(set(local_callables[c_.func.id]) - _MODULE_NAMES))
             if touched:
@@ -703,13 +703,19 @@ def _summarize(func, mutators=None, env0=None):
                 else:
                     targets = st.targets
                 val = subst(st.value, env)
+                # what the value may be, with the groups these names are in BEFORE the targets are rebound (`rs = rs[:]` stays a view
+                # of everything `rs` was a view of)
+                tnames_ = {t.id for t in targets if isinstance(t, ast.Name)}
+                before_ = set()
+                for r_ in _alias.roots(st.value, None, local_callables, None, grp_all.holds) & tnames_:
+                    before_ |= set(group(env, r_)) - tnames_
                 for t in targets:
                     _bind(t, copy.deepcopy(val) if len(targets) > 1 else val, env)
                 # names of one object: `a = b`, `a = b = f()`, and names whose objects may share storage: a view `a = b[:]`,
                 # a part `a = b.coord`, a container `a = [b]`, the result of an unknown call on b (alias.roots)
                 same = [t.id for t in targets if isinstance(t, ast.Name)]
                 if same and not _is_immutable(val):
-                    same.extend(sorted(_alias.roots(st.value, None, local_callables) - set(same) - _MODULE_NAMES - {"self", "cls"}))
+                    same.extend(sorted((_alias.roots(st.value, None, local_callables, None, grp_all.holds) | before_) - set(same) - _MODULE_NAMES - {"self", "cls"}))
                     if isinstance(st.value, ast.Name) and st.value.id not in same:
                         same.append(st.value.id)
                 if len(same) > 1 and not _is_immutable(val):
@@ -863,7 +869,7 @@ def _summarize(func, mutators=None, env0=None):
                             mutate(n_, _call("__mut__", _call("__item_written__", ast.Constant(direct or "?")), ast.Constant(n_)), env)
             else:
                 # np.asarray(x)[:] = v, x.view()[i] = v, (a if c else b)[i] = v: whatever the base may be is written
-                for n_ in sorted(_alias.roots(base, None, local_callables) - _MODULE_NAMES):
+                for n_ in sorted(_alias.roots(base, None, local_callables, None, grp_all.holds) - _MODULE_NAMES):
                     mutate(n_, _call("__mut__", copy.deepcopy(new), ast.Constant(n_)), env)
         elif isinstance(t, ast.Attribute):
             base = t.value
@@ -871,7 +877,7 @@ def _summarize(func, mutators=None, env0=None):
                 mutate(base.id, _call("__setattr__", subst(_load(base), env), ast.Constant(t.attr), val), env)
             else:
                 new = _call("__setattr__", subst(_load(base), env), ast.Constant(t.attr), val)
-                for n_ in sorted(_alias.roots(base, None, local_callables) - _MODULE_NAMES):
+                for n_ in sorted(_alias.roots(base, None, local_callables, None, grp_all.holds) - _MODULE_NAMES):
                     mutate(n_, _call("__mut__", copy.deepcopy(new), ast.Constant(n_)), env)
         elif isinstance(t, ast.Starred):
             _bind(t.value, val, env)
